@@ -189,9 +189,9 @@ Definition addon_coherentb (w : world) (a : addon) : bool := forallb (fun b => b
 
 (* ---- recorded exceptions (genuine defects of the pinned tree, see findings/C19.json) ----
    They weaken ONLY the two `_partial` theorems of Props/C19.v; set them to [] once the fixes are in. *)
-Definition recorded_orphan_regime_files : list str := [bs "gr"].        (* C19-stale-gr-json *)
-Definition recorded_scenario_tag_exceptions : list str := [bs "in"].     (* C19-in-scenario-tags-undefined *)
-Definition recorded_duplicate_tag_exceptions : list str := [bs "it-sdi-v1"]. (* C19-it-sdi-duplicate-tag *)
+Definition recorded_orphan_regime_files : list str := [].        (* C19-stale-gr-json *)
+Definition recorded_scenario_tag_exceptions : list str := [].     (* C19-in-scenario-tags-undefined *)
+Definition recorded_duplicate_tag_exceptions : list str := []. (* C19-it-sdi-duplicate-tag *)
 
 (* whole-world checks used by the generated-data lemmas *)
 Definition all_regimes_coherentb (w : world) : bool := forallb (fun nr => regime_coherentb w (snd nr)) (w_regimes w).
